@@ -53,7 +53,7 @@ def out_meta(func, args, kwargs):
     return meta_call(func, args, kwargs)
 
 
-META_PASS = {"dim", "size", "ndimension", "numel", "is_floating_point", "stride", "is_contiguous", "__len__", "nelement",
+META_PASS = {"_has_compatible_shallow_copy_type", "dim", "size", "ndimension", "numel", "is_floating_point", "stride", "is_contiguous", "__len__", "nelement",
              "is_complex", "is_signed", "element_size", "is_same_size", "is_inference", "is_nonzero_", "get_device", "is_set_to",
              "type_", "is_shared", "is_pinned", "is_conj", "is_neg", "_is_view", "is_sparse", "has_names", "is_quantized",
              "is_coalesced", "is_distributed", "is_leaf", "_has_symbolic_sizes_strides", "dim_order", "storage_offset"}
@@ -91,7 +91,22 @@ def dispatch(func, args, kwargs):
     if h is None:
         raise Unsupported("op " + name)
     STATS["ops"][name] = STATS["ops"].get(name, 0) + 1
-    return h(func, args, kwargs)
+    res = h(func, args, kwargs)
+    # ghost: does the result carry an autograd graph (depends, through differentiable ops, on a tensor that requires grad)?
+    if name not in NO_GRAPH and torch.is_grad_enabled():
+        g = False
+        for a_ in pytree.tree_leaves((args, kwargs)):
+            if isinstance(a_, Sym) and a_._g and (a_._g.get("requires_grad") or a_._g.get("graph")):
+                g = True; break
+        if g:
+            for r_ in pytree.tree_leaves(res):
+                if isinstance(r_, Sym) and r_.dtype.is_floating_point and not (r_._g or {}).get("requires_grad"):
+                    r_._g = dict(r_._g or {}); r_._g["graph"] = True
+    return res
+
+
+NO_GRAPH = {"detach", "detach_", "requires_grad_", "_make_subclass", "__bool__", "item", "size", "dim", "ge", "gt", "le", "lt", "eq", "ne",
+            "__ge__", "__gt__", "__le__", "__lt__", "__eq__", "__ne__", "long", "int", "bool", "byte", "floor", "sign", "argsort", "nonzero"}
 
 
 @handles("_make_subclass")
